@@ -2,6 +2,7 @@ package liquid
 
 import (
 	"io"
+	"path/filepath"
 
 	"github.com/osteele/liquid/filters"
 	"github.com/osteele/liquid/render"
@@ -136,6 +137,7 @@ func (e *Engine) ParseTemplateAndCache(source []byte, path string, line int) (*T
 	if err != nil {
 		return t, err
 	}
-	e.cfg.Cache[path] = source
+	// includes look the source up under the cleaned path; the cache keeps its own copy
+	e.cfg.Cache[filepath.Clean(path)] = append([]byte(nil), source...)
 	return t, err
 }
